@@ -201,6 +201,8 @@ fn c05() -> (bool, String) {
     let cases: Vec<(&str, Option<Vec<PublicKeyCredentialDescriptor>>, Option<Vec<u8>>)> = vec![
         ("absent", None, Some(a1.clone())), ("empty", Some(vec![]), Some(a1.clone())), ("[a2]", Some(vec![desc(&a2)]), Some(a2.clone())),
         ("[unknown]", Some(vec![desc(&[9; 16])]), None), ("[b1] under RP a", Some(vec![desc(&b1)]), None), ("[unknown, a2]", Some(vec![desc(&[9; 16]), desc(&a2)]), Some(a2.clone())),
+        // descriptors whose type is not "public-key": a list that names nothing usable is still a non-empty allow list
+        ("[unknown id, type Unknown]", Some(vec![PublicKeyCredentialDescriptor { ty: PublicKeyCredentialType::Unknown, ..desc(&[9; 16]) }]), None),
     ];
     for (name, allow, want) in cases {
         let mut a = Authenticator::new(Aaguid::new_empty(), store.clone(), yes());
